@@ -7,6 +7,7 @@ from functools import reduce
 from operator import mul
 from itertools import product,combinations
 from inspect import isgenerator
+from numbers import Integral
 
 from collections import OrderedDict
 from cnfgen.info import info
@@ -221,6 +222,8 @@ class BaseOPB:
         try:
             maxv = self._numvar
             for c,l in data[:-2]:
+                if not isinstance(l, Integral):
+                    raise TypeError("{} is not an integer".format(l))
                 if l==0:
                     raise ValueError("0 is not a valid literal")
                 if c<0:
